@@ -15,7 +15,8 @@ check('C07', 'E1-hubsim',
       'Seeded search over hub schedules (broadcast / delay / ignore / subscribe / unsubscribe / listener death / '
       're-entrant handler scripts / exception exits) executed on the real Hub; every recorded trace is validated by a '
       'spec state machine (exactly-once, right recipients, priority order, no delivery while delayed, in-order flush at '
-      'the outermost exit, ignored types dropped). Sampling of schedules, not proof; exploration is the honest level.',
+      'the outermost exit, ignored types dropped; a listener dropped by its owner is gone after the next collection). Sampling of schedules, not proof; '
+      'exploration is the honest level.',
       'Trusts CPython weakref/GC semantics and the 250-line trace checker; handlers never raise; schedules up to 40 '
       'top-level operations, re-entrancy depth 3, 4 listeners, 4 message classes.',
       'deterministic simulation: seeded hub scheduler + fault injection (listener death, exception exits, GC points) + trace-validation oracle',
@@ -49,7 +50,10 @@ check('C03', 'E2-world',
 check('C05', 'E2-world',
       'Twin-world differential under a seeded read schedule: world A runs the generated history of writes and reads (masks, values, '
       'statistics, histograms, copies, views; file rewrite + simulated poll timer -> LoadLog.reload); at up to three checkpoints a cold '
-      'twin is rebuilt from reset process globals by replaying the writes only, and every observable must agree. Sampling, not proof.',
+      'twin is rebuilt from reset process globals by replaying the writes only, and every observable must agree. In 40% of runs a hub listener '
+      'evaluates the sender\'s selections inside every message handler (reads inside writes). Three oracles are independent of the twin: each tracked '
+      'selection vs a never-evaluated clone, stored values vs the last write to that dataset (writes are isolated), what a real histogram viewer shows vs '
+      'the twin\'s compute_histogram. Sampling, not proof.',
       'Both worlds run glue: a result that is wrong with warm and cold caches alike is invisible (C01/C03/C14 use independent models). '
       'Write patterns of the open findings in known_findings.json are excluded by generator guards once the state has been read.',
       'deterministic simulation: seeded read/write scheduler + simulated poll clock and file rewrites + twin-world (cold replay) oracle',
